@@ -56,7 +56,7 @@ PROPS = {
                 "wire, the object's field and an independent count must agree; re-encode after a size-preserving change.",
     },
     "C05": {
-        "theorems": ["FinProto.Obl.C05_frames_recognised", "FinProto.Obl.C05_repo", "FinProto.Obl.C05_sse_alg", "FinProto.Obl.C05_szse_alg", "FinProto.Obl.C05_crc32_alg", "FinProto.frame_cks_exact", "FinProto.frame_shape", "FinProto.Obl.gen_types_eq_pinned"],
+        "theorems": ["FinProto.Obl.C05_frames_recognised", "FinProto.Obl.C05_repo", "FinProto.Obl.C05_calc_bodies", "FinProto.Obl.C05_sse_alg", "FinProto.Obl.C05_szse_alg", "FinProto.Obl.C05_crc32_alg", "FinProto.frame_cks_exact", "FinProto.frame_shape", "FinProto.Obl.gen_types_eq_pinned"],
         "aspects": {**ENC_ALL},
         "rule": "as C04 for the 3 checksummed frames; the trailer and the object's field must equal an independent byte sum / bitwise CRC-32 of "
                 "exactly this frame's bytes (corrected length included, earlier buffer content excluded), incl. frames > 1 KiB of heavy bytes.",
@@ -118,7 +118,7 @@ PROPS = {
                 "runes); reads of arbitrary N-byte fields; exhaustive for N<=2 over strings of length <=2 (<=3 thorough) over {pad,'a',NUL,0xC3}.",
     },
     "C14": {
-        "theorems": ["FinProto.sseGo_eq", "FinProto.sseGo_lt", "FinProto.szseGo_eq", "FinProto.szseGo_lt", "FinProto.crc16Go_eq_modbus", "FinProto.crc32Go_eq_ieee"],
+        "theorems": ["FinProto.Obl.C14_calc_bodies", "FinProto.crc16_template_is", "FinProto.sse_template_is", "FinProto.szse_template_is", "FinProto.sseGo_eq", "FinProto.sseGo_lt", "FinProto.szseGo_eq", "FinProto.szseGo_lt", "FinProto.crc16Go_eq_modbus", "FinProto.crc32Go_eq_ieee"],
         "aspects": {**OTHER},
         "rule": "4 algorithms x all byte strings of length <= 2 against independent references (<= 3 in the thorough tier), random lengths to "
                 "70 KB incl. all-high-bit bytes, runs of one byte up to 8,421,760 (33 MiB thorough), buffer unchanged and result repeatable, "
@@ -239,6 +239,15 @@ def check_facts(pid, facts):
             views = [v for v in f["buf_views"] if v in ("buf.Available", "buf.Cap", "buf.AvailableBuffer")]
             if views:
                 out.append(("alloc-guard:" + name, False, "capacity-based bound %s (spare capacity is not input)" % views))
+    if pid in ("C14", "C05"):
+        want = {"Crc16ChecksumService": "CRC16", "Crc32ChecksumService": "CRC32", "SseBinChecksumService": "SSE_BIN", "SzseBinChecksumService": "SZSE_BIN"}
+        got = facts.get("algorithms", {})
+        for svc, alg in sorted(want.items()):
+            out.append(("algorithm-name:" + svc, True if got.get(svc) == alg else (None if svc not in got else False), "Algorithm() = %r" % got.get(svc)))
+        regs = facts.get("init_registrations") or []
+        for svc in sorted(want):
+            ok = any(svc in r and r.startswith("Registry(") for r in regs)
+            out.append(("registered-at-init:" + svc, True if ok else False, "init: %s" % regs))
     if pid == "C14":
         for name, calls in sorted(facts.get("calc", {}).items()):
             ok = set(calls) <= {"data.Bytes", "data.Len"}
